@@ -219,6 +219,35 @@ func ext۰reflect۰New(fr *frame, args []value) value {
 	return makeReflectValue(types.NewPointer(t), &alloc)
 }
 
+// reflect.NewAt(typ, p): supported for a slice type when p points at a
+// slice-header view {Data, Len, Cap}: the result points at that slice.
+func ext۰reflect۰NewAt(fr *frame, args []value) value {
+	t := argType(args[0])
+	p, ok := args[1].(uptr)
+	if !ok || p.cell == nil {
+		panic(unsupported{"reflect.NewAt on a non-object pointer"})
+	}
+	if h, ok := (*p.cell).(structure); ok && len(h) == 3 {
+		if st, ok := t.Underlying().(*types.Slice); ok {
+			data, _ := h[0].(uptr)
+			n, c := asInt64(h[1]), asInt64(h[2])
+			var sl []value
+			if data.base != nil {
+				d2 := data
+				d2.esize = fr.i.sizeof(st.Elem())
+				idx, ok := fr.i.elemIndex(d2, c)
+				if !ok {
+					panic(wildDeref{"reflect.NewAt: slice header outside its object"})
+				}
+				sl = data.base[idx : idx+n : idx+c]
+			}
+			cell := value(sl)
+			return makeReflectValue(types.NewPointer(t), &cell)
+		}
+	}
+	return makeReflectValue(types.NewPointer(t), p.cell)
+}
+
 func ext۰reflect۰SliceOf(fr *frame, args []value) value {
 	return makeReflectType(rtype{types.NewSlice(argType(args[0]))})
 }
@@ -849,6 +878,7 @@ func init() {
 		"(reflect.rtype).Key":          ext۰reflect۰rtype۰Key,
 		"reflect.New":                  ext۰reflect۰New,
 		"reflect.SliceOf":              ext۰reflect۰SliceOf,
+		"reflect.NewAt":                ext۰reflect۰NewAt,
 		"reflect.PtrTo":                ext۰reflect۰PtrTo,
 		"reflect.PointerTo":            ext۰reflect۰PtrTo,
 		"reflect.TypeOf":               ext۰reflect۰TypeOf,
